@@ -1,13 +1,16 @@
 #![allow(non_snake_case)]
 mod arena;
 mod expand;
+mod expr;
 mod field;
 mod group;
 mod job;
 mod r1cs;
+mod replay;
 mod oracle;
 mod scen_c03;
 mod scen_c10;
+mod scen_c15;
 mod scen_r1cs;
 mod shapes;
 
@@ -110,6 +113,37 @@ fn tasks_for(prop: &str, tier: &str, seed: u64) -> Vec<Task> {
                         }),
                     });
                 }
+            }
+            out
+        }
+        "C15" => {
+            let mut out = vec![];
+            for (k, (shape, err)) in shapes::c15_pipeline_cases(thorough, seed).into_iter().enumerate() {
+                let c = ["secq256k1", "zorro", "curve25519"][k % 3].to_string();
+                let pad = shape.padded();
+                let (shape, err) = (shape.clone(), err.clone());
+                out.push(Task {
+                    name: format!("C15:{}:{}", shape.name, c),
+                    replay: scen_r1cs::replay_json(&shape, &err, seed, pad, pad),
+                    run: Box::new(move || {
+                        use scen_r1cs::job_completeness_soundness as f;
+                        let mut j = on_curve!(c.as_str(), f, "C15", &shape, &err, seed, pad, pad, &c);
+                        j.scenario = format!("C15:pipeline:{}:{}", shape.name, c);
+                        j
+                    }),
+                });
+            }
+            for k in 0..(if thorough { 12 } else { 3 }) {
+                let c = ["secq256k1", "zorro", "curve25519"][k % 3].to_string();
+                let ntrees = if thorough { 60 } else { 30 };
+                out.push(Task {
+                    name: format!("C15:denotation{}:{}", k, c),
+                    replay: serde_json::json!({"kind": "c15", "batch": k, "ntrees": ntrees, "seed": seed}),
+                    run: Box::new(move || {
+                        use scen_c15::job_c15_denotation as f;
+                        on_curve!(c.as_str(), f, k as u64, ntrees, seed, &c)
+                    }),
+                });
             }
             out
         }
@@ -240,6 +274,29 @@ fn main() {
                     }
                     for l in &lines {
                         println!("{}", l);
+                    }
+                    println!("REPLAY {}", if any_wrong { "REPRODUCED" } else { "NOT-REPRODUCED" });
+                    std::process::exit(if any_wrong { 1 } else { 0 });
+                }
+                Some(kind @ ("c10" | "c13" | "c15")) => {
+                    let seed = rp["seed"].as_u64().unwrap_or(0);
+                    let mut any_wrong = false;
+                    for (k, m) in [(0u64, model.clone()), (1, HashMap::new()), (2, HashMap::new())] {
+                        let checks = std::panic::catch_unwind(|| match kind {
+                            "c10" => {
+                                let case: scen_c10::IppCase = serde_json::from_value(rp["case"].clone()).unwrap();
+                                replay::c10_native::<Secq>(&case, seed + k, m)
+                            }
+                            "c13" => replay::c13_native::<Secq>(rp["variant"].as_str().unwrap(), seed + k, m),
+                            _ => replay::c15_native::<ark_secq256k1::Fr>(rp["batch"].as_u64().unwrap(), rp["ntrees"].as_u64().unwrap() as usize, seed, m),
+                        });
+                        match checks {
+                            Ok(c) => any_wrong |= replay::report(c),
+                            Err(_) => {
+                                println!("native run: PANIC in the code under test");
+                                any_wrong = true;
+                            }
+                        }
                     }
                     println!("REPLAY {}", if any_wrong { "REPRODUCED" } else { "NOT-REPRODUCED" });
                     std::process::exit(if any_wrong { 1 } else { 0 });
